@@ -57,10 +57,12 @@ def run(cx):
     comp = {
         'el': 'BitXor(BitXor(BitXor(BitXor($b, rotate_left($b, 2)), rotate_left($b, 10)), rotate_left($b, 18)), rotate_left($b, 24))',
         'el_prime': 'BitXor(BitXor($b, rotate_left($b, 13)), rotate_left($b, 23))',
-        't': 'el(tau($val))', 't_prime': 'el_prime(tau($val))',
     }
+    # L and L' are looked through (inlined into T and T'): T = L(tau(x)) whether L is a function or written in place
+    comp['t'] = comp['el'].replace('$b', 'tau($val)')
+    comp['t_prime'] = comp['el_prime'].replace('$b', 'tau($val)')
     for name, want in comp.items():
-        f = cx.fn('gm_sm4::' + name, 'I-SM4')
+        f = F.fns.get('gm_sm4::' + name) if name in ('el', 'el_prime') else cx.fn('gm_sm4::' + name, 'I-SM4')
         if f is not None:
             r = [x[1] for x in I.returns(f, F)]
             cx.add('I-SM4', name, r == [want], '%s = %s' % (name, r), f.loc())
@@ -68,7 +70,14 @@ def run(cx):
     if f is not None:
         st = [(a, I.shorten_vars(b)) for a, b in I.stores(f, F, 'buf')]
         r = [I.shorten_vars(x[1]) for x in I.returns(f, F)]
-        cx.add('I-SM4', 'tau', st == [(str(k), 'SBOX[(buf[%d] as usize)]' % k) for k in range(4)] and r == ['from_be_bytes:u32(buf)'],
+        ok_map = False
+        if r and r[0].startswith('from_be_bytes:u32(map(to_be_bytes:u32($a), closure'):
+            # a.to_be_bytes().map(|b| SBOX[b as usize]): the closure applies the S-box to its byte
+            cl = [g for n_, g in F.fns.items() if n_.startswith(f.name + '::{closure')]
+            if len(cl) == 1:
+                rc = [I.shorten_vars(x[1]) for x in I.returns(cl[0], F)]
+                ok_map = len(rc) == 1 and __import__('re').match(r'^SBOX\[\(\$\w+ as usize\)\]$', rc[0]) is not None
+        cx.add('I-SM4', 'tau', ok_map or st == [(str(k), 'SBOX[(buf[%d] as usize)]' % k) for k in range(4)] and r == ['from_be_bytes:u32(buf)'],
                'tau applies the S-box to each of the four bytes of the word in place', f.loc(), {'stores': st, 'ret': r})
     # ---- key schedule
     fn = cx.fn('<impl Sm4Cipher>::new', 'I-SM4')
